@@ -86,3 +86,85 @@ def probe_values(bnds: list, cap: int = 25) -> list:
         idx = sorted({(k * (len(vals) - 1)) // (cap - 1) for k in range(cap)})
         vals = [vals[k] for k in idx]
     return vals
+
+
+# --------------------------------------------------------------------------
+# self-intersecting cells for the conventions whose generator makes none
+
+def move_node(rng: random.Random, recipe: dict) -> None:
+    """SHOC standard: one node of the lattice displaced by two cells along one axis and half a cell along the other
+    (recipe key `moved_nodes`, half-lattice units).  A face that has the node at the end it was moved away from now
+    crosses itself (bow-tie); its other faces become irregular quadrilaterals overlapping their neighbours."""
+    ny, nx = recipe['ny'], recipe['nx']
+    j, i = rng.randint(0, ny), rng.randint(0, nx)
+    along, across = rng.choice([2, -2]), rng.choice([1, -1]) * F(1, 2)
+    dj, di = (along, across) if rng.random() < 0.5 else (across, along)
+    recipe['moved_nodes'] = [[j, i, int(2 * (j + dj)), int(2 * (i + di))]]
+
+
+def twist_face(rng: random.Random, recipe: dict) -> bool:
+    """UGRID: two neighbouring nodes of one face (4 or more nodes) listed the other way round: the face's ring in listed
+    order crosses itself.  The nodes and the other faces stay as they were; a swap that would give an edge a third
+    face is not taken."""
+    faces = recipe['faces']
+    cands = [(k, a) for k, f in enumerate(faces) if len(f) >= 4 for a in range(len(f))]
+    rng.shuffle(cands)
+    for k, a in cands:
+        f = list(faces[k])
+        b = (a + 1) % len(f)
+        f[a], f[b] = f[b], f[a]
+        # the mesh stays a mesh: no edge with more than two faces (the edge tables have two columns)
+        seen: dict = {}
+        for g in faces[:k] + [f] + faces[k + 1:]:
+            for u, v in zip(g, g[1:] + g[:1]):
+                e = (min(u, v), max(u, v))
+                seen[e] = seen.get(e, 0) + 1
+        if max(seen.values()) <= 2:
+            faces[k] = f
+            break
+    else:
+        return False
+    recipe['twisted_faces'] = recipe.get('twisted_faces', []) + [k]
+    return True
+
+
+# --------------------------------------------------------------------------
+# the accessors of ONE convention object, read in a given order
+
+ACCESSORS = ['mask', 'polygons', 'geometry', 'bounds', 'face_centres', 'strtree']
+
+
+def read_history(rng: random.Random) -> list:
+    """An order in which the cached accessors of one convention object are read: a permutation of all of them, half
+    of the time with `mask` first (the one accessor that is derived from another one's result), followed by a second
+    read of one of them (answered from the cache)."""
+    order = ACCESSORS[:]
+    rng.shuffle(order)
+    if rng.random() < 0.5:
+        order.remove('mask')
+        order.insert(0, 'mask')
+    return order + [rng.choice(ACCESSORS)]
+
+
+def read_accessors(conv, reads: list):
+    """Read the accessors of the convention object `conv` in the order `reads`.
+    -> (first: name -> ('ok', value) | ('err', text) of the FIRST read of each accessor,
+        again: [(name, ('ok', value) | ('err', text)), …] of the repeated reads,
+        warned: an InvalidPolygonWarning was emitted at some point)"""
+    import warnings
+    from emsarray.exceptions import InvalidPolygonWarning
+    first: dict = {}
+    again: list = []
+    with warnings.catch_warnings(record=True) as rec:
+        warnings.simplefilter('always')
+        for name in reads:
+            try:
+                got = ('ok', getattr(conv, name))
+            except Exception as e:
+                got = ('err', f'{type(e).__name__}: {e}')
+            if name in first:
+                again.append((name, got))
+            else:
+                first[name] = got
+    warned = any(issubclass(w.category, InvalidPolygonWarning) for w in rec)
+    return first, again, warned
